@@ -31,6 +31,7 @@ const INCLUDED_QUERY: &[&str] = &[
     "response-content-language",
     "response-content-type",
     "response-expires",
+    "torrent",
     "uploadId",
     "uploads",
     "versionId",
